@@ -141,6 +141,7 @@ type checkOpts struct {
 	seed     int
 	noReplay bool
 	maxPaths int
+	validate int
 }
 
 func cmdCheck(args []string) int {
@@ -152,6 +153,7 @@ func cmdCheck(args []string) int {
 	fs.IntVar(&o.workers, "workers", 0, "parallel workers (default: cores)")
 	fs.BoolVar(&o.noReplay, "no-replay", false, "skip native replay of counterexamples")
 	fs.IntVar(&o.maxPaths, "max-paths", 0, "path limit per harness")
+	fs.IntVar(&o.validate, "validate", -1, "passing paths per harness to validate natively (default: 1 quick, 3 thorough)")
 	var prop string
 	if len(args) > 0 && !strings.HasPrefix(args[0], "-") {
 		prop = args[0]
@@ -175,6 +177,12 @@ func cmdCheck(args []string) int {
 		}
 	}
 	o.seed, _ = strconv.Atoi(os.Getenv("VERIF_SEED"))
+	if o.validate < 0 {
+		o.validate = 1
+		if o.tier == "thorough" {
+			o.validate = 3
+		}
+	}
 	os.Setenv("VERIF_TIER", o.tier)
 	return runCheck(prop, &o)
 }
@@ -247,7 +255,7 @@ func runCheck(prop string, o *checkOpts) int {
 		fmt.Fprintf(os.Stderr, "no harness ran for %s\n", prop)
 		if loadFailed {
 			// the tree does not load: nothing can be claimed, but this is not a property violation
-			writeEvidence(prop, o, nil, nil, nil, time.Since(t0), true)
+			writeEvidence(prop, o, nil, nil, nil, time.Since(t0), true, 0, 0)
 		}
 		return 2
 	}
@@ -282,6 +290,32 @@ func runCheck(prop string, o *checkOpts) int {
 			confirmed = append(confirmed, cv)
 		}
 	}
+	// native validation of passing paths: the compiled harness must pass on witness inputs (and schedules) of completed
+	// symbolic paths; a failure or divergence means the executor, a stub or the replay machinery disagrees with the compiler
+	validated, validationFailed, unvalidated := 0, 0, 0
+	if !o.noReplay && o.validate > 0 {
+		for _, r := range results {
+			for i, pw := range r.PassWitnesses {
+				if i >= o.validate {
+					break
+				}
+				path := writeReplayFile(prop, pw, pkgOf[r.Name], 1000+i)
+				ok, out := nativePass(path)
+				if ok && strings.HasPrefix(out, "UNVALIDATED") {
+					unvalidated++
+				} else if ok {
+					validated++
+				} else {
+					validationFailed++
+					fmt.Printf("VALIDATION-MISMATCH property=%s harness=%s: a path the executor completed without violation does not pass natively (see %s)\n", prop, r.Name, path)
+					if o.verbose {
+						fmt.Println(out)
+					}
+				}
+			}
+		}
+		fmt.Printf("validated %d passing paths natively (%d mismatches, %d not comparable: schedule not imposable)\n", validated, validationFailed, unvalidated)
+	}
 	sort.Strings(knownHits)
 	seen := map[string]bool{}
 	for _, k := range knownHits {
@@ -298,7 +332,7 @@ func runCheck(prop string, o *checkOpts) int {
 			exit = 1
 		}
 	}
-	writeEvidence(prop, o, results, confirmed, knownHits, time.Since(t0), false)
+	writeEvidence(prop, o, results, confirmed, knownHits, time.Since(t0), false, validated, validationFailed)
 	if exit == 0 {
 		incon := 0
 		for _, r := range results {
